@@ -47,6 +47,7 @@ func (vr *ValueRun) Run(cfg hx.Config) (*hx.Meta, error) {
 		hx.Shuffle(r, d2)
 		types = Dedup(append(types, d2[:60]...))
 	}
+	types = Dedup(append(cat.Special(), types...))
 	if vr.Filter != nil {
 		var f []*Type
 		for _, t := range types {
